@@ -192,3 +192,105 @@ package mempool
 //@   loop 0 invariant len(merge) <= rangeindex + 1 && rangeindex >= -1
 //@   loop 1 invariant true
 //@   loop 2 invariant true
+
+// ---- C21: pool bookkeeping ------------------------------------------------------------------------------
+
+// the arrival-order queue: no duplicate hash, never above its capacity, byte counter follows the content
+//@ func (*SimpleQueue).Push [C21]
+//@   opt safety=assumed overflow=assumed
+//@   requires cache.txList != nil && tx != nil
+//@   ensures result == nil ==> !old(cache.txList.lmhas[bytes(ret(Hash))]) && old(cache.txList.lmsize) < cache.subConfig.PoolCacheSize
+//@   ensures result == nil ==> cache.txList.lmhas[bytes(ret(Hash))] && cache.txList.lmsize == old(cache.txList.lmsize) + 1 && cache.cacheBytes == old(cache.cacheBytes) + ret(Size, 1)
+//@   ensures result == nil ==> forall k Bytes :: k != bytes(ret(Hash)) ==> cache.txList.lmhas[k] == old(cache.txList.lmhas[k])
+//@   ensures result != nil ==> cache.txList.lmhas == old(cache.txList.lmhas) && cache.txList.lmsize == old(cache.txList.lmsize) && cache.cacheBytes == old(cache.cacheBytes)
+//@   ensures old(cache.txList.lmhas[bytes(ret(Hash))]) ==> result == types.ErrTxExist
+//@   ensures old(cache.txList.lmsize) <= cache.subConfig.PoolCacheSize ==> cache.txList.lmsize <= cache.subConfig.PoolCacheSize
+//@   assert@call types.Size: unbox(arg0) == tx.Value
+
+//@ func (*SimpleQueue).Remove [C21]
+//@   opt safety=assumed overflow=assumed panics=allowed
+//@   requires cache.txList != nil
+//@   ensures result == nil ==> old(cache.txList.lmhas[hash]) && !cache.txList.lmhas[hash] && cache.txList.lmsize == old(cache.txList.lmsize) - 1 && cache.cacheBytes == old(cache.cacheBytes) - ret(Size)
+//@   ensures result != nil ==> !old(cache.txList.lmhas[hash]) && cache.txList.lmhas == old(cache.txList.lmhas) && cache.txList.lmsize == old(cache.txList.lmsize) && cache.cacheBytes == old(cache.cacheBytes)
+//@   assert@call types.Size: unbox(arg0) == cast(old(cache.txList.lmval[hash]), Item).Value
+
+// per-sender index: never more than maxperaccount entries per sender
+//@ func (*AccountTxIndex).CanPush [C21]
+//@   opt safety=assumed
+//@   frame nothing
+//@   ensures has(cache.accMap, ret(From)) ==> result == (cache.accMap[ret(From)].lmsize < cache.maxperaccount)
+//@   ensures !has(cache.accMap, ret(From)) ==> result
+
+//@ func (*AccountTxIndex).Push [C21]
+//@   opt safety=assumed overflow=assumed
+//@   requires cache.accMap != nil && cache.maxperaccount >= 0
+//@   ensures has(cache.accMap, ret(From))
+//@   ensures result == nil ==> cache.accMap[ret(From)].lmhas[txHash] && cache.accMap[ret(From)].lmsize <= cache.maxperaccount
+//@   ensures result != nil ==> result == types.ErrManyTx && cache.accMap[ret(From)].lmsize >= cache.maxperaccount
+//@   ensures old(has(cache.accMap, ret(From))) && old(cache.accMap[ret(From)].lmsize) <= cache.maxperaccount ==> cache.accMap[ret(From)].lmsize <= cache.maxperaccount
+
+//@ func (*AccountTxIndex).Remove [C21]
+//@   opt safety=assumed overflow=assumed
+//@   ensures old(has(cache.accMap, ret(From))) ==> !old(cache.accMap[ret(From)]).lmhas[txHash]
+//@   ensures has(cache.accMap, ret(From)) ==> cache.accMap[ret(From)].lmsize > 0
+//@   ensures forall k Bytes :: k != ret(From) ==> has(cache.accMap, k) == old(has(cache.accMap, k)) && cache.accMap[k] == old(cache.accMap[k])
+
+//@ func (*AccountTxIndex).TxNumOfAccount [C21]
+//@   opt safety=assumed
+//@   frame nothing
+//@   ensures result == (has(cache.accMap, addr) ? cache.accMap[addr].lmsize : 0)
+
+// the composite cache: one push / one removal updates the queue, the per-sender index, the latest list,
+// the short-hash lookup and the fee total together, all under the same hash
+//@ trusted func (*LastTxCache).Push
+//@   frame ~txCache.totalFee, ~txCache.qcache, ~txCache.AccountTxIndex, ~txCache.LastTxCache, ~txCache.SHashTxCache, ~AccountTxIndex.accMap, ~AccountTxIndex.maxperaccount, ~mem:uint8, ~github.com/33cn/chain33/types.Transaction.Fee
+//@ trusted func (*LastTxCache).Remove
+//@   frame ~txCache.totalFee, ~txCache.qcache, ~txCache.AccountTxIndex, ~txCache.LastTxCache, ~txCache.SHashTxCache, ~AccountTxIndex.accMap, ~AccountTxIndex.maxperaccount, ~mem:uint8, ~github.com/33cn/chain33/types.Transaction.Fee
+//@ trusted func (*SHashTxCache).Push
+//@   frame ~txCache.totalFee, ~txCache.qcache, ~txCache.AccountTxIndex, ~txCache.LastTxCache, ~txCache.SHashTxCache, ~AccountTxIndex.accMap, ~AccountTxIndex.maxperaccount, ~mem:uint8, ~github.com/33cn/chain33/types.Transaction.Fee
+//@ trusted func (*SHashTxCache).Remove
+//@   frame ~txCache.totalFee, ~txCache.qcache, ~txCache.AccountTxIndex, ~txCache.LastTxCache, ~txCache.SHashTxCache, ~AccountTxIndex.accMap, ~AccountTxIndex.maxperaccount, ~mem:uint8, ~github.com/33cn/chain33/types.Transaction.Fee
+//@ trusted func (QueueCache).Push
+//@   frame ~txCache.totalFee, ~txCache.qcache, ~txCache.AccountTxIndex, ~txCache.LastTxCache, ~txCache.SHashTxCache, ~AccountTxIndex.accMap, ~AccountTxIndex.maxperaccount, ~mem:uint8, ~github.com/33cn/chain33/types.Transaction.Fee, ~Item.Value
+//@ trusted func (QueueCache).Remove
+//@   frame ~txCache.totalFee, ~txCache.qcache, ~txCache.AccountTxIndex, ~txCache.LastTxCache, ~txCache.SHashTxCache, ~AccountTxIndex.accMap, ~AccountTxIndex.maxperaccount, ~mem:uint8, ~github.com/33cn/chain33/types.Transaction.Fee, ~Item.Value
+//@ trusted func (QueueCache).GetItem
+//@   frame nothing
+//@ trusted func (*AccountTxIndex).Push
+//@   frame ~txCache.totalFee, ~txCache.qcache, ~txCache.AccountTxIndex, ~txCache.LastTxCache, ~txCache.SHashTxCache, ~AccountTxIndex.accMap, ~AccountTxIndex.maxperaccount, ~mem:uint8, ~github.com/33cn/chain33/types.Transaction.Fee
+//@ trusted func (*AccountTxIndex).Remove
+//@   frame ~txCache.totalFee, ~txCache.qcache, ~txCache.AccountTxIndex, ~txCache.LastTxCache, ~txCache.SHashTxCache, ~AccountTxIndex.accMap, ~AccountTxIndex.maxperaccount, ~mem:uint8, ~github.com/33cn/chain33/types.Transaction.Fee
+
+//@ func (*txCache).Push [C21]
+//@   opt safety=assumed overflow=assumed
+//@   requires tx != nil && cache.AccountTxIndex != nil && cache.AccountTxIndex.accMap != nil && cache.AccountTxIndex.maxperaccount >= 0
+//@   assert@call QueueCache).Push: arg1 != nil && arg1.Value == tx && ret(CanPush)
+//@   assert@call AccountTxIndex).Push: arg0 == cache.AccountTxIndex && arg1 == tx && arg2 == bytes(ret(Hash)) && ret(Push, 0) == nil
+//@   assert@call LastTxCache).Push: arg0 == cache.LastTxCache && arg1 == tx && arg2 == bytes(ret(Hash)) && ret(Push, 1) == nil
+//@   assert@call SHashTxCache).Push: arg0 == cache.SHashTxCache && arg1 == tx && arg2 == ret(Hash)
+//@   ensures result == nil ==> called(Push, 0) && called(Push, 1) && called(Push, 2) && called(Push, 3) && cache.totalFee == old(cache.totalFee) + old(tx.Fee)
+//@   ensures result != nil ==> cache.totalFee == old(cache.totalFee) && !called(Push, 2) && !called(Push, 3)
+//@   ensures !ret(CanPush) ==> result == types.ErrManyTx && !called(Push, 0)
+
+//@ func (*txCache).Remove [C21]
+//@   opt safety=assumed overflow=assumed
+//@   assert@call QueueCache).Remove: arg1 == hash && ret1(GetItem) == nil
+//@   assert@call AccountTxIndex).Remove: arg0 == cache.AccountTxIndex && arg1 == ret0(GetItem).Value && arg2 == hash
+//@   assert@call LastTxCache).Remove: arg0 == cache.LastTxCache && arg1 == hash
+//@   assert@call SHashTxCache).Remove: arg0 == cache.SHashTxCache && arg1 == hash
+//@   ensures ret1(GetItem) == nil ==> called(Remove, 0) && called(Remove, 1) && called(Remove, 2) && called(Remove, 3)
+//@   ensures ret1(GetItem) != nil ==> cache.totalFee == old(cache.totalFee) && !called(Remove, 0) && !called(Remove, 1) && !called(Remove, 2) && !called(Remove, 3)
+//@   ensures ret1(GetItem) == nil ==> cache.totalFee == old(cache.totalFee) - old(ret0(GetItem).Value.Fee)
+
+// a new block: every one of its transactions that is in the pool is removed, under its own hash
+//@ pure func (*txCache).Exist
+//@ func (*Mempool).RemoveTxsOfBlock [C21]
+//@   opt safety=assumed panics=allowed
+//@   assert@call txCache).Remove: arg1 == bytes(ret(Hash)) && ret(Exist)
+//@   assert@call Exist: arg1 == bytes(ret(Hash))
+//@   assert@call Hash: arg0 == block.Txs[rangeindex]
+//@   ensures result
+//@   loop 0 invariant rangeindex >= -1 && block.Txs == old(block.Txs)
+// removing from the pool does not touch the block being processed
+//@ trusted func (*txCache).Remove
+//@   frame ~github.com/33cn/chain33/types.Block.Txs, ~mem:*github.com/33cn/chain33/types.Transaction
